@@ -20,6 +20,8 @@ MUTANTS += [
     ('helix negative branch off the ellipse', [('mininec.Helix.__init__', "                x  = -xm * np.sin (a)\n                y  =  ym * np.cos (a)", "                x  = -xm * np.sin (a)\n                y  =  ym * np.sin (a)")], ['on-curve', 'closing']),
     ('helix closing point with start radius', [('mininec.Helix.__init__', "        x = rx2 * np.cos (a)\n        y = ry2 * np.sin (a)", "        x = rx1 * np.cos (a)\n        y = ry2 * np.sin (a)")], ['closing', 'on-curve']),
     ('helix closing point handedness', [('mininec.Helix.__init__', "        a = s * (abs (length) % abs (turnlen)) / abs (turnlen) * 2 * np.pi", "        a = (abs (length) % abs (turnlen)) / abs (turnlen) * 2 * np.pi")], ['closing']),
+    ('transformations applied unsorted', [('mininec.main', "for t in sorted (geo_transforms, key = lambda x: x [0]):", "for t in geo_transforms:")], ['ORDER.main']),
+    ('transformations sorted by the tag', [('mininec.main', "for t in sorted (geo_transforms, key = lambda x: x [0]):", "for t in sorted (geo_transforms, key = lambda x: x [3] or 0):")], ['ORDER.main']),
 ]
 REFACTORS = [
     ('equal segments loop variable renamed', [(W + 'compute_equal_segments', "        for i in range (self.n_segments):\n            s1 = seg + (i + 1) * dirvec * seg_len", "        for k in range (self.n_segments):\n            s1 = seg + (k + 1) * dirvec * seg_len")]),
